@@ -63,6 +63,8 @@ func (s *Default) refresh(ctx context.Context, acceptStale bool) (err error) {
 		}
 	}
 
+	s.keepInvalidRuleLists(newRuleLists, resp)
+
 	s.logger.InfoContext(ctx, "compiled lists", "num_lists", len(newRuleLists))
 
 	err = s.refreshServices(ctx, acceptStale)
@@ -175,6 +177,27 @@ func (s *Default) setPrevRuleList(newRuleLists ruleLists, id filter.ID) {
 
 	if rl, ok := s.ruleLists[id]; ok {
 		newRuleLists[id] = rl
+	}
+}
+
+// keepInvalidRuleLists adds to newRuleLists the previous versions of the rule
+// lists whose entries in the index have a valid ID but are otherwise invalid,
+// so that a broken index entry does not remove a working filter.  Such entries
+// are handled the same way as the lists that have failed to refresh.
+func (s *Default) keepInvalidRuleLists(newRuleLists ruleLists, resp *indexResp) {
+	for _, rf := range resp.Filters {
+		if rf == nil {
+			continue
+		}
+
+		id, err := filter.NewID(rf.Key)
+		if err != nil {
+			continue
+		}
+
+		if _, ok := newRuleLists[id]; !ok {
+			s.setPrevRuleList(newRuleLists, id)
+		}
 	}
 }
 
